@@ -470,6 +470,26 @@ impl<'a> World<'a> {
             }
             self.rep.probe("add_refused_for_recorded_port");
         }
+        // every service this add installed in the OS (and left installed) is in the saved registry, however the
+        // operation ended: an installed service the registry does not know is state that disagrees with reality,
+        // and the next add would hand its name and data directory out again
+        let orphan: Option<String> = {
+            let os = self.os.lock();
+            os.installs
+                .iter()
+                .filter(|r| r.op_index == _i && os.installed.contains_key(&r.label))
+                .map(|r| r.label.clone())
+                .find(|l| !post_e.iter().any(|e| &e.name == l))
+        };
+        if let Some(label) = orphan {
+            self.viol(
+                "add.installed_service_not_recorded",
+                &[("failing_call", fired_sig(fired)), ("result", if out.ok() { "ok" } else { "err" }.into())],
+                format!("add installed service {label} in the OS but the saved registry does not list it (entries {} -> {})", pre_e.len(), post_e.len()),
+                false,
+            );
+            return;
+        }
         if !out.ok() && post_e.len() > pre_e.len() {
             self.rep.probe("add_partially_failed");
         }
